@@ -1,7 +1,13 @@
 (* The C09 oracle is true on the model's own observations, for every history: a simulation between the
    specification automaton of Oracle/C09Oracle.v and the conductor model. *)
-Require Import V.Base.MachineInt V.Generated.GenConsts V.Model.Conductor V.Proofs.ConductorBase V.Proofs.ConductorInv
-               V.Proofs.ConductorProofs V.Proofs.ConductorClose V.Oracle.C09Oracle.
+Require Import V.Base.MachineInt.
+Require Import V.Generated.GenConsts.
+Require Import V.Model.Conductor.
+Require Import V.Proofs.ConductorBase.
+Require Import V.Proofs.ConductorInv.
+Require Import V.Proofs.ConductorProofs.
+Require Import V.Proofs.ConductorClose.
+Require Import V.Oracle.C09Oracle.
 From Coq Require Import ZifyBool.
 Open Scope Z_scope.
 
